@@ -146,3 +146,51 @@ pub use wtransport_proto as proto;
 pub use quinn;
 
 mod driver;
+
+/// Verification hooks (add-only re-exports of crate-private pure functions; compiled only with `--cfg wtransport_verif`).
+#[cfg(wtransport_verif)]
+#[doc(hidden)]
+#[allow(missing_docs)]
+pub mod verif_hooks {
+    pub use crate::config::verif as config;
+
+    pub fn varint_q2w(varint: quinn::VarInt) -> crate::VarInt {
+        crate::driver::utils::varint_q2w(varint)
+    }
+
+    pub fn varint_w2q(varint: crate::VarInt) -> quinn::VarInt {
+        crate::driver::utils::varint_w2q(varint)
+    }
+
+    pub fn streamid_q2w(stream_id: quinn::StreamId) -> crate::StreamId {
+        crate::driver::utils::streamid_q2w(stream_id)
+    }
+
+    pub fn datagram_read(
+        quic_dgram: bytes::Bytes,
+    ) -> Result<crate::datagram::Datagram, wtransport_proto::error::ErrorCode> {
+        crate::datagram::Datagram::read(quic_dgram)
+    }
+
+    pub fn datagram_write(
+        session_id: crate::SessionId,
+        payload: &[u8],
+    ) -> crate::datagram::Datagram {
+        crate::datagram::Datagram::write(session_id, payload)
+    }
+
+    pub fn datagram_header_size(session_id: crate::SessionId) -> usize {
+        crate::datagram::Datagram::header_size(session_id)
+    }
+
+    pub fn datagram_into_quic_bytes(datagram: crate::datagram::Datagram) -> bytes::Bytes {
+        datagram.into_quic_bytes()
+    }
+
+    pub fn application_close_new(
+        code: crate::VarInt,
+        reason: Box<[u8]>,
+    ) -> crate::error::ApplicationClose {
+        crate::error::ApplicationClose::new(code, reason)
+    }
+}
